@@ -60,6 +60,10 @@ var interestingF64 = []uint64{
 	0x3ff8000000000000, // 1.5
 	0x3e112e0be826d695, // 1e-9
 	0x4415af1d78b58c40, // 1e20
+	0x444b1ae4d6e2ef50, // 1e21
+	0x7e37e43c8800759c, // 1e300
+	0xc530d8c08c9b1e5e, // about -2e25
+	0x01a56e1fc2f8f359, // 1e-300
 }
 var nonFiniteF64 = []uint64{0x7ff0000000000000, 0xfff0000000000000, 0x7ff8000000000000, 0x7ff8000000000001, 0xfff8000000000000, 0x7ff0000000000001}
 var interestingF32 = []uint32{0, 0x80000000, 0x3f800000, 0xbf800000, 1, 0x007fffff, 0x7f7fffff, 0x00800000, 0x3dcccccd, 0x3fc00000, 0x1e3ce508, 0x60ad78ec}
@@ -76,8 +80,22 @@ func F64Bits(t *rapid.T, finiteOnly bool, label string) uint64 {
 		}
 		fallthrough
 	case 2:
-		// "decimal looking" values
-		v := float64(rapid.Int64Range(-1000000, 1000000).Draw(t, label+"_m")) / math.Pow10(rapid.IntRange(0, 6).Draw(t, label+"_e"))
+		// "decimal looking" values: few significant digits, any decimal exponent
+		m := float64(rapid.Int64Range(-1000000, 1000000).Draw(t, label+"_m"))
+		if rapid.Bool().Draw(t, label+"_1digit") {
+			m = float64(rapid.Int64Range(-9, 9).Draw(t, label+"_m1"))
+		}
+		e := rapid.IntRange(0, 6).Draw(t, label+"_e")
+		if rapid.IntRange(0, 2).Draw(t, label+"_bige") == 1 {
+			e = rapid.IntRange(-300, 300).Draw(t, label+"_e2")
+		}
+		v := m / math.Pow10(e)
+		if e < 0 {
+			v = m * math.Pow10(-e)
+		}
+		if math.IsInf(v, 0) || math.IsNaN(v) {
+			v = m
+		}
 		return math.Float64bits(v)
 	default:
 		for {
@@ -104,7 +122,18 @@ func F32Bits(t *rapid.T, finiteOnly, noSNaN bool, label string) uint32 {
 		}
 		fallthrough
 	case 2:
-		v := float32(rapid.Int32Range(-100000, 100000).Draw(t, label+"_m")) / float32(math.Pow10(rapid.IntRange(0, 4).Draw(t, label+"_e")))
+		m := float64(rapid.Int32Range(-100000, 100000).Draw(t, label+"_m"))
+		if rapid.Bool().Draw(t, label+"_1digit") {
+			m = float64(rapid.IntRange(-9, 9).Draw(t, label+"_m1"))
+		}
+		e := rapid.IntRange(-4, 0).Draw(t, label+"_e")
+		if rapid.IntRange(0, 2).Draw(t, label+"_bige") == 1 {
+			e = rapid.IntRange(-38, 38).Draw(t, label+"_e2")
+		}
+		v := float32(m * math.Pow10(e))
+		if v != v || math.IsInf(float64(v), 0) {
+			v = float32(m)
+		}
 		b = math.Float32bits(v)
 	default:
 		b = rapid.Uint32().Draw(t, label)
